@@ -3,5 +3,6 @@ CONSTANTS
   FileOwnerBeforeMode = TRUE
   SymlinkChownFollows = TRUE
   SymlinkTimesFollow = FALSE
-INVARIANTS Inv_MetadataExact Inv_OutsideUntouched
+  EmptinessSeesAllKinds = TRUE
+INVARIANTS Inv_MetadataExact Inv_OutsideUntouched Inv_RefusesNonEmpty Inv_RefusedUntouched Inv_NoHangWithoutOverwrite
 CHECK_DEADLOCK FALSE
